@@ -146,6 +146,14 @@ def run_spec(ctx, rep, spec, model, orders, real_pool=False, only=None):
             want = [key(truth[(lv, b)][..., 0]) for b in bm[1]]
             if [key(a) for a in got_list] != want:
                 rep.fail("on-demand iterator does not yield the selected boxes in the requested order", case)
+            elif model:
+                bd = selectors.box_to_driver(bsel)
+                if bd is not None:
+                    m = leanio.driver([{"op": "boxsel", "size": nb, "t": bd["t"], "v": bd["v"]}])[0]
+                    if m.get("status") == "ok" and m.get("positions") == bm[1]:
+                        rep.agree(); rep.count("iter-order-is-the-selection-model's")
+                    else:
+                        rep.tie("the boxes the on-demand iterator delivered differ from the Lean selection model (C15.on_demand_order)", case, m)
     # negative level keys on a reader opened with a level limit count from the last level READ
     nlev = len(spec["levels"])
     if only is None and nlev >= 2:
@@ -257,7 +265,7 @@ def run(ctx, rep, model=True):
         # all the reader's own grid bookkeeping - not under test here - can cope with)
         spec["idx_shift"] = -ctx.rng.randint(1, min(spec["grid0"]) - 1) if (i % 5 in (2, 4) and min(spec["grid0"]) >= 2) else 0
         if spec["idx_shift"]: rep.count("negative-indices")
-        if i % 6 == 3:
+        if i % 6 == 4:
             # seven-digit cell indices in every direction (a fine level of a very large domain): FAB header lines of more
             # than 120 bytes
             spec["idx_shift"] = 1234567; rep.count("seven-digit-indices")
